@@ -38,8 +38,9 @@ def _install_sharding():
     """gv.standard_flow evaluates all Coq terms of a run through gv.coq_eval, which cuts the list into
     consecutive shards of 250 terms.  A C14 term is a whole trace (up to hundreds of operations and
     thousands of observations) and the sizes differ by a factor of 1000, so the terms are instead
-    spread over at most NCPU coqc processes balanced by size (longest-processing-time first); every
-    process pays the load time of the libraries once.  Same files, same evaluation (gv._eval_shard)."""
+    spread over at most NCPU coqc processes (one per ~250 kB of term text) balanced by size
+    (longest-processing-time first); every process pays the load time of the libraries once.
+    Same files, same evaluation (gv._eval_shard)."""
     orig = gv.coq_eval
     if getattr(orig, "_c14", False):
         return
@@ -47,10 +48,13 @@ def _install_sharding():
     def coq_eval(name, requires, exprs, shard=250):
         if not exprs:
             return []
-        d = os.path.join(gv.BUILD, "cases", name)
+        tag = getattr(gv, "OUT_TAG", "")
+        d = os.path.join(gv.BUILD, "cases", (tag + "_" if tag else "") + name)
         shutil.rmtree(d, ignore_errors=True)
         os.makedirs(d)
-        nb = max(1, min(gv.NCPU, len(exprs)))
+        # one process per ~250 kB of term text (every process pays a few seconds of library loading)
+        total = sum(len(e) for e in exprs)
+        nb = max(1, min(gv.NCPU, len(exprs), -(-total // 250000)))
         bins = [[0, []] for _ in range(nb)]
         for i in sorted(range(len(exprs)), key=lambda i: -len(exprs[i])):
             b = min(bins, key=lambda b: b[0])
@@ -77,7 +81,7 @@ def run(tier, seed):
     have = {f["id"] for f in chk.known}
     chk.known = chk.known + [f for f in _own_findings() if f["id"] not in have]
     proof = gv.proof_status(PROP, REQ_PROPS)
-    ncases = 110 if tier == "quick" else 700
+    ncases = gv.scaled(PROP, tier, 110, 400, chk)
     ok, out, binp = gv.cargo_build("c14")
     if not ok:
         chk.violation("build", {"what": "the harness no longer builds against /repo's working tree", "log": out[-3000:],
@@ -96,8 +100,10 @@ def run(tier, seed):
         "real LpgStore with backward adjacency, without it, or a GrafeoDB through its non-transactional wrappers; streams: corpus "
         "(finding witnesses, chunk-boundary histories), mixed (state-aware, 1/3 with ids that do not exist), hub (>=300 edges on one "
         "source node with compaction at every threshold, deletes in the middle, self-loops, parallel edges, destination 0); after every "
-        "op (quick: every 8th op of histories longer than 12, after every RefreshStats, and at the end) every accessor of observe_at is "
-        "compared with the model and cross-checked against the other access paths; a trace is non-trivial when it contains a delete and "
+        "op (quick: every 8th/16th/32nd op of histories longer than 12/60/300, after every RefreshStats, and at the end) every accessor of observe_at is "
+        "compared with the model and cross-checked against the other access paths (quick: the observations in the middle of a trace longer "
+        "than 60 ops sample fewer nodes, edges and probe values; the final one and those after a refresh are full); a trace is "
+        "non-trivial when it contains a delete and "
         "label, edge and property operations; distinct = distinct (mode, op sequence); oracle:* cases are the cross-check failures, "
         "classified by the finding class predicates of coq/Lpg/Classes.v evaluated on the history")
     chk.coverage["samples"] = [{"kind": c["k"], "input": c["in"][:400], "impl": c["impl"][:200]} for c in traces[28:33]]
